@@ -231,6 +231,26 @@ def run(ctx, prog):
         ctx.undecided('C08-D1', f'{cc.key}::append', 'the statement extending the convergence traces was not found', cc.where())
     inits = [s for s in ast.walk(cc.node) if isinstance(s, ast.Assign) and self_attr(s.targets[0]) == 'convergence_traces' and s not in st]
     for s in inits:
+        # what is created holds no column yet: scores.shape + (0,) - a first column that is not a score (uninitialised, zeros)
+        # would be a point no fresh attack produces
+        v_ = astutil.expand_locals(s.value, astutil.local_defs(cc.node))
+        k0 = f'{cc.key}::{norm(s)[:50]} columns'
+        ext = None
+        if isinstance(v_, ast.Call) and norm(v_.func).split('.')[-1] in ('empty', 'zeros', 'ones', 'ndarray', 'full') and (v_.args or any(k.arg == 'shape' for k in v_.keywords)):
+            shp = v_.args[0] if v_.args else next(k.value for k in v_.keywords if k.arg == 'shape')
+            last_ = None
+            if isinstance(shp, ast.BinOp) and isinstance(shp.op, ast.Add) and isinstance(shp.right, ast.Tuple) and shp.right.elts:
+                last_ = shp.right.elts[-1]
+            elif isinstance(shp, ast.Tuple) and shp.elts and not isinstance(shp.elts[-1], ast.Starred):
+                last_ = shp.elts[-1]
+            ext = astutil.const_value_(last_) if last_ is not None else None
+        if isinstance(v_, ast.Constant) and v_.value is None:
+            pass                      # reset to "no convergence traces yet"
+        elif isinstance(ext, int) and not isinstance(ext, bool):
+            ctx.check(ext == 0, 'C08-D1', k0, f'the convergence traces are created with {ext} column(s) already present (`{norm(s.value)[:60]}`): the first column is not the score of any prefix of the traces',
+                      'created with no column (last extent 0)', cc.where(s))
+        else:
+            ctx.undecided('C08-D1', k0, f'the number of columns of the array created by `{norm(s.value)[:60]}` is not a literal extent', cc.where(s))
         pm = astutil.parents(cc.node)
         g = astutil.guards(s, pm)
         if any(pol and norm(t).replace(' ', '') in ('self.convergence_tracesisNone', 'Noneisself.convergence_traces') for t, pol in g) or \
